@@ -108,6 +108,20 @@ class Exec(ExprMixin, StmtMixin, CallMixin):
             q.env = dict(p.env)
             for nm, v in zip(params, vals): q.env[nm] = v
             return self.ev(parse_spec(body), q)
+        if n == 'forall' and len(a) == 2 and isinstance(a[0], ast.Name) and isinstance(a[1], ast.Call) and isinstance(a[1].func, ast.Name) \
+                and a[1].func.id == 'forall' and len(a[1].args) in (2, 3) and isinstance(a[1].args[0], ast.Name):
+            # forall(a, forall(b, body[, trigger])) without ranges: ONE quantifier over both variables (a nested pair gives the outer
+            # quantifier no usable trigger)
+            b = a[1].args
+            j1 = z3.Int('%s?%d' % (a[0].id, len(self.qvars))); j2 = z3.Int('%s?%d' % (b[0].id, len(self.qvars) + 1))
+            q = p.fork(); q.env[a[0].id] = VInt(j1); q.env[b[0].id] = VInt(j2)
+            self.qdepth += 2; self.qvars += [j1, j2]
+            try:
+                body = self.truthy(self.ev(b[1], q)); pat = None
+                if len(b) == 3:
+                    tv = self.ev(b[2], q); pat = [tv.t if hasattr(tv, 't') else tv.arr]
+            finally: self.qdepth -= 2; self.qvars.pop(); self.qvars.pop()
+            return VBool(z3.ForAll([j1, j2], body, patterns=pat) if pat else z3.ForAll([j1, j2], body))
         if n in ('forall', 'exists'):
             if not isinstance(a[0], ast.Name): raise StaleContract('quantifier variable')
             self.qdepth += 1
@@ -115,13 +129,18 @@ class Exec(ExprMixin, StmtMixin, CallMixin):
             j = z3.Int('%s?%d' % (a[0].id, len(self.qvars)))
             q = p.fork(); q.env[a[0].id] = VInt(j); self.qvars.append(j)
             try:
-                if len(a) == 4:
+                pat = None
+                if len(a) in (4, 5):
                     lo = self.ev(a[1], p).t; hi = self.ev(a[2], p).t; rng = z3.And(lo <= j, j < hi); body = self.truthy(self.ev(a[3], q))
-                elif len(a) == 2:
+                    if len(a) == 5:          # explicit trigger term: forall(i, lo, hi, body, trigger)   (an instantiation hint only)
+                        tv = self.ev(a[4], q); pat = [tv.arr if isinstance(tv, VList) else tv.t]
+                elif len(a) in (2, 3) and n == 'forall' or len(a) == 2:
                     rng = z3.BoolVal(True); body = self.truthy(self.ev(a[1], q))
+                    if len(a) == 3:
+                        tv = self.ev(a[2], q); pat = [tv.t if hasattr(tv, 't') else tv.arr]
                 else: raise StaleContract('quantifier arity')
             finally: self.qdepth -= 1; self.qvars.pop()
-            if n == 'forall': return VBool(z3.ForAll([j], z3.Implies(rng, body)))
+            if n == 'forall': return VBool(z3.ForAll([j], z3.Implies(rng, body), patterns=pat) if pat else z3.ForAll([j], z3.Implies(rng, body)))
             return VBool(z3.Exists([j], z3.And(rng, body)))
         if n == 'implies':
             c = self.truthy(self.ev(a[0], p))
@@ -429,7 +448,11 @@ def _opaque_call(self, n, a, p):
         try: res = self.ev(parse_spec(body), q)
         finally: self.qvars = saved
         t = self.truthy(res) if not isinstance(res, VInt) else res.t
-        F = self.lemmas.opaque_fn(ck, zs, t, n)
+        # the symbol is identified by the BODY (over canonical parameter names), not by the heap version it was first evaluated in: a body
+        # that does not read a changed heap array denotes the same predicate before and after the change
+        canon = z3.substitute(t, *[(z, z3.Const('$opq%d' % i, z.sort())) for i, z in enumerate(zs)]) if zs else t
+        F = self.lemmas.opaque_fn(('opaque-body', self.fn.key, n, canon.get_id(), tuple(str(z.sort()) for z in zs)), zs, t, n)
+        self._opaque_keep = getattr(self, '_opaque_keep', []) + [canon]          # keep the term alive (ids are only unique among live terms)
         self.param_cache[ck] = (F, isinstance(res, VInt))
     F, is_int = self.param_cache[ck]
     args = []
